@@ -108,7 +108,7 @@ Proof.
   destruct (Nat.le_gt_cases r (length l)) as [Hl|Hl].
   - replace (r - Nat.min r (length l))%nat with 0%nat by lia. cbn [skipn].
     rewrite firstn_firstn. f_equal. lia.
-  - rewrite (skipn_all2 l) by lia. rewrite skipn_nil, firstn_nil. now rewrite skipn_nil, firstn_nil.
+  - rewrite (skipn_all2 l) by lia. rewrite firstn_nil, skipn_nil. reflexivity.
 Qed.
 
 Lemma fsub_mk_fbytes (b : bytes) (off len : nat) :
@@ -141,4 +141,146 @@ Lemma fsub_at (pre x post : bytes) :
 Proof.
   unfold sizeN. rewrite fsub_mk_fbytes by (rewrite !app_length; lia).
   now rewrite slice_app.
+Qed.
+
+(** * Thrift: the boolean well-formedness check, and decoding within the
+      decoder's fuel (nesting depth / fields per struct, not tree size) *)
+
+Lemma in_sint64b_ok z : in_sint64b z = true -> in_sint 64 z.
+Proof.
+  unfold in_sint64b, in_sint. change (Z.of_N 64 - 1)%Z with 63%Z. lia.
+Qed.
+
+Lemma code_okb_ok ty v : code_okb ty v = true -> code_ok ty v.
+Proof.
+  destruct v; cbn [code_okb code_ok]; intros H; try (apply N.eqb_eq; exact H).
+  apply orb_true_iff in H. destruct H as [H|H]; apply N.eqb_eq in H; auto.
+Qed.
+
+Lemma wfb_wf : forall v, wfb v = true -> wf v.
+Proof.
+  induction v as [b|n|c z|bits|bs|e l IH|fs IH] using tval_ind'; intros H.
+  - exact I.
+  - cbn in *. lia.
+  - cbn [wfb] in H. apply andb_true_iff in H. destruct H as [Hc Hz]. split; [|now apply in_sint64b_ok].
+    unfold T_I16, T_I32, T_I64 in *. lia.
+  - cbn in *. lia.
+  - cbn [wfb wf] in *. lia.
+  - apply wf_list. cbn [wfb] in H. rewrite !andb_true_iff in H.
+    destruct H as ((((H1 & H2) & H3) & H4) & H5). unfold T_MAP in *.
+    repeat split; try lia.
+    rewrite forallb_forall in H5. rewrite Forall_forall in IH. apply Forall_forall. intros x Hx.
+    specialize (H5 x Hx). apply andb_true_iff in H5. destruct H5 as [Hc Hw].
+    split; [now apply code_okb_ok|]. now apply IH.
+  - apply wf_struct. cbn [wfb] in H. rewrite forallb_forall in H. rewrite Forall_forall in IH.
+    apply Forall_forall. intros p Hp. specialize (H p Hp). apply andb_true_iff in H. destruct H as [Hi Hw].
+    split; [now apply in_sint64b_ok|]. now apply IH.
+Qed.
+
+Lemma need_list e l : need (TList e l) = S (fold_right (fun x a => Nat.max (need x) a) 0%nat l).
+Proof. reflexivity. Qed.
+
+Lemma need_struct fs : need (TStruct fs) = S (fold_right (fun p a => Nat.max (need (snd p)) a) (S (length fs)) fs).
+Proof. reflexivity. Qed.
+
+Lemma need_list_elem l : forall x, In x l -> (need x <= fold_right (fun x a => Nat.max (need x) a) 0%nat l)%nat.
+Proof.
+  induction l as [|y l IH]; intros x [->|Hx]; cbn [fold_right]; [lia|]. specialize (IH x Hx). lia.
+Qed.
+
+Lemma need_struct_bound (fs : list (Z * tval)) base :
+  (base <= fold_right (fun p a => Nat.max (need (snd p)) a) base fs)%nat /\
+  forall p, In p fs -> (need (snd p) <= fold_right (fun p a => Nat.max (need (snd p)) a) base fs)%nat.
+Proof.
+  induction fs as [|q fs [IH1 IH2]]; cbn [fold_right]; split; try lia.
+  - intros p [].
+  - intros p [->|Hp]; [lia|]. specialize (IH2 p Hp). lia.
+Qed.
+
+Lemma dec_elems_need f elem : forall l rest,
+  Forall (fun x => forall rest, dec_val f elem (encode x ++ rest) = Some (x, rest)) l ->
+  dec_elems f elem (length l) (concat (map encode l) ++ rest) = Some (l, rest).
+Proof.
+  induction l as [|x l IH]; intros rest Hl; [reflexivity|].
+  inversion Hl as [|? ? Hx Hl']; subst.
+  cbn [length dec_elems_with map concat]. rewrite <- app_assoc.
+  rewrite Hx. rewrite IH by exact Hl'. reflexivity.
+Qed.
+
+Lemma type_code_not_bool x : (forall b, x <> TBool b) -> wf x ->
+  (type_code x =? T_TRUE) = false /\ (type_code x =? T_FALSE) = false.
+Proof.
+  intros Hb Hw. destruct x as [b|n|c z|bits|bs|e l|gs]; try (split; reflexivity).
+  - now destruct (Hb b).
+  - cbn [type_code]. destruct Hw as [Hc _]. destruct (int_code_cases c Hc) as (E1 & E2 & _). now split.
+Qed.
+
+Lemma dec_fields_need f : forall fs last rest k,
+  Forall (fun p => in_sint 64 (fst p) /\ wf (snd p) /\
+                   (forall rest, dec_val f (type_code (snd p)) (encode (snd p) ++ rest) = Some (snd p, rest))) fs ->
+  (length fs < k)%nat ->
+  dec_fields f k last (enc_fields last fs ++ rest) = Some (fs, rest).
+Proof.
+  induction fs as [|[id x] fs IH]; intros last rest k Hfs Hk.
+  - destruct k; [cbn in Hk; lia|]. reflexivity.
+  - destruct k as [|k]; [cbn in Hk; lia|].
+    inversion Hfs as [|? ? (Hid & Hw & Hx) Hfs']; subst. cbn [fst snd] in *. cbn [length] in Hk.
+    assert (Hrest : dec_fields f k id (enc_fields id fs ++ rest) = Some (fs, rest)) by (apply IH; auto; lia).
+    destruct x as [b|n|c z|bits|bs|e l|gs] eqn:Ex.
+    + cbn [enc_fields]. rewrite <- app_assoc.
+      destruct (field_header_dec last id (if b then T_TRUE else T_FALSE) (enc_fields id fs ++ rest))
+        as (h & r & Eh & Hnz & Hm & Hidr); [destruct b; unfold T_TRUE, T_FALSE; lia|exact Hid|].
+      rewrite Eh. cbn [dec_fields_with]. rewrite Hnz. cbv zeta. rewrite Hidr, Hm.
+      destruct b; cbn [N.eqb T_TRUE T_FALSE Pos.eqb]; rewrite Hrest; reflexivity.
+    + all: rewrite <- Ex in *.
+      all: assert (Hnb : (type_code x =? T_TRUE) = false /\ (type_code x =? T_FALSE) = false)
+             by (apply type_code_not_bool; [intros b' Hb'; rewrite Ex in Hb'; discriminate|exact Hw]).
+      all: destruct Hnb as [Hn1 Hn2].
+      all: assert (Henc : enc_fields last ((id, x) :: fs) = enc_field_header last id (type_code x) ++ encode x ++ enc_fields id fs)
+             by (rewrite Ex; reflexivity).
+      all: rewrite Henc, <- !app_assoc.
+      all: destruct (field_header_dec last id (type_code x) (encode x ++ enc_fields id fs ++ rest))
+             as (h & r & Eh & Hnz & Hm & Hidr); [apply type_code_range; exact Hw|exact Hid|].
+      all: rewrite Eh; cbn [dec_fields_with]; rewrite Hnz; cbv zeta; rewrite Hidr, Hm, Hn1, Hn2.
+      all: rewrite Hx, Hrest; reflexivity.
+Qed.
+
+Theorem dec_val_encode_need : forall v, wf v ->
+  forall fuel ty rest, (need v <= fuel)%nat -> code_ok ty v ->
+  dec_val fuel ty (encode v ++ rest) = Some (v, rest).
+Proof.
+  induction v as [b|n|c z|bits|bs|e l IH|fs IH] using tval_ind'; intros Hw fuel ty rest Hf Hc.
+  1-5: apply dec_val_encode; [exact Hw|exact Hf|exact Hc].
+  - (* list *)
+    destruct fuel as [|f]; [cbn in Hf; lia|].
+    cbn in Hc. subst ty. apply wf_list in Hw. destruct Hw as ((He & Hm) & Hn & Hl).
+    change (type_code (TList e l)) with T_LIST. rewrite dec_val_list, encode_list, <- app_assoc.
+    destruct (list_header_dec e (length l) (concat (map encode l) ++ rest) He Hn)
+      as (h & r & Eh & Hmod & Hhdr).
+    rewrite Eh. cbv zeta. rewrite Hhdr, Hmod, Nat2N.id.
+    rewrite dec_elems_need; [reflexivity|].
+    rewrite need_list in Hf.
+    rewrite Forall_forall in *. intros x Hx rest'. destruct (Hl x Hx) as [Hcx Hwx].
+    apply IH; [exact Hx|exact Hwx| |exact Hcx].
+    pose proof (need_list_elem l x Hx). lia.
+  - (* struct *)
+    destruct fuel as [|f]; [cbn in Hf; lia|].
+    cbn in Hc. subst ty. apply wf_struct in Hw.
+    change (type_code (TStruct fs)) with T_STRUCT. rewrite dec_val_struct, encode_struct.
+    rewrite need_struct in Hf.
+    destruct (need_struct_bound fs (S (length fs))) as [Hb1 Hb2].
+    rewrite dec_fields_need; [reflexivity| |lia].
+    rewrite Forall_forall in *. intros p Hp. destruct (Hw p Hp) as [Hid Hwp].
+    split; [exact Hid|]. split; [exact Hwp|]. intros rest'.
+    apply IH; [exact Hp|exact Hwp| |].
+    + specialize (Hb2 p Hp). lia.
+    + destruct (snd p) as [[|]| | | | | |]; cbn; auto.
+Qed.
+
+Lemma decode_thrift_encode (t : tval) (rest : bytes) :
+  wfb t = true -> (need t <=? 64)%nat = true -> (exists fs, t = TStruct fs) ->
+  decode_thrift (encode t ++ rest) = Some (t, rest).
+Proof.
+  intros Hw Hn [fs ->]. unfold decode_thrift, thrift_fuel.
+  apply dec_val_encode_need; [now apply wfb_wf|now apply Nat.leb_le|reflexivity].
 Qed.
